@@ -418,3 +418,34 @@ def woff2_close_order(ctx, repo):
     chk = [n for n in walk_no_nested(f.node) if isinstance(n, ast.If) and "len(self.tables) != self.numTables" in norm(n.test)]
     ok = bool(chk) and all(g.dominates(g.id_of(chk[0]), y) for ys in pos.values() for y in ys)
     ctx.ob("W2-order", f.where, "table-count check dominates every step", ok)
+
+
+# ---------------------------------------------------------------------------
+# WOFF-off: a recorded block offset is the position at which the block is written
+# ---------------------------------------------------------------------------
+def woff_block_offsets(ctx, repo):
+    ctx.rule("WOFF-off", "in the WOFF writer every `self.<x>Offset = self.file.tell()` is taken right where block <x> starts: the next write to the file after it is the block's data, not padding or another block (an offset taken before the alignment padding points 1-3 bytes early and the block reads back shifted)", floor=2)
+    f = repo.mod("ttLib/sfnt.py").func("SFNTWriter.close")
+    n = 0
+    for blk_owner in ast.walk(f.node):
+        for fld in ("body", "orelse"):
+            blk = getattr(blk_owner, fld, None)
+            if not isinstance(blk, list):
+                continue
+            for i, st in enumerate(blk):
+                if not (isinstance(st, ast.Assign) and isinstance(st.targets[0], ast.Attribute) and st.targets[0].attr.endswith("Offset") and norm(st.targets[0].value) == "self" and norm(st.value) == "self.file.tell()"):
+                    continue
+                n += 1
+                stem = st.targets[0].attr[: -len("Offset")]
+                nxt = None
+                for later in blk[i + 1:]:
+                    w = [c for c in ast.walk(later) if isinstance(c, ast.Call) and norm(c.func) == "self.file.write"]
+                    if w:
+                        nxt = w[0]
+                        break
+                arg = norm(nxt.args[0]) if nxt is not None and nxt.args else None
+                pad = nxt is not None and nxt.args and isinstance(nxt.args[0], ast.BinOp) and isinstance(nxt.args[0].op, ast.Mult) and any(isinstance(x, ast.Constant) and x.value in (b"\0", b"\x00") for x in ast.walk(nxt.args[0]))
+                ok = nxt is not None and not pad and stem.lower() in (arg or "").lower()
+                ctx.ob("WOFF-off", f.where, f"self.{stem}Offset = tell(); next write: {arg}", ok, "" if ok else "the offset is recorded somewhere else than at the first byte of its block")
+    if n < 2:
+        raise AnalysisError(f"WOFF-off: {n} block offsets taken with tell() in SFNTWriter.close (metaOffset and privOffset confirmed by hand)")
